@@ -252,6 +252,7 @@ class Battery:
         self.cname = c['cls']
         self.lb = util.lbucket(self.L)
         self.s = build_receiver(c)
+        self.results = []
 
     # -- bookkeeping
     def bad(self, opk, form, iclass, shape, detail=''):
@@ -314,7 +315,32 @@ class Battery:
                 held = False
         if held:
             self.good(opk, form, kind, iclass, bool(bits) if nontrivial is None else nontrivial)
+            if type(r).__name__ in util.MUTABLE and not any(r is x for x in inputs) and len(self.results) < 64:
+                self.results.append(r)          # the caller's own new object: changed in place at the end of the battery (see scribble)
         return held
+
+    def scribble(self):
+        """Every new mutable result is the caller's to change; afterwards the same operators on fresh operands give what they gave before."""
+        n = 0
+        for r in self.results:
+            if call(lambda: (r.invert(), r.append('0b1'), r.set(1, 0)))[0] == 'ok':
+                n += 1
+        self.results = []
+        if not n or not self.L:
+            return
+        self.ctx.op('operators-after-results-were-changed-in-place')
+        t = build_receiver(self.c)
+        zeros, ones = '0' * self.L, '1' * self.L
+        for name, f, exp in (('xor:self', lambda: t ^ t, zeros), ('and:self', lambda: t & t, self.a), ('or:self', lambda: t | t, self.a),
+                             ('invert', lambda: ~t, model_invert(self.a)[1]), ('lshift:all', lambda: t << self.L, zeros), ('rshift:all', lambda: t >> self.L, zeros),
+                             ('lshift:1', lambda: t << 1, self.a[1:] + '0'), ('rshift:1', lambda: t >> 1, '0' + self.a[:-1]),
+                             ('xor:zeros', lambda: t ^ Bits(self.L), self.a), ('or:not', lambda: t | ~t, ones), ('and:not', lambda: t & ~t, zeros)):
+            got = call(lambda: B(f()))
+            if got != ('ok', exp):
+                self.bad(name.split(':')[0], 'after-results-were-changed-in-place', name, 'value' if got[0] == 'ok' else 'unexpected-exc:' + type(got[1]).__name__,
+                         f'{name}: got {str(got[1])[:80]} expected {exp[:80]}')
+            else:
+                self.ctx.ok(('after-scribble', name, self.cname), True)
 
     # -- the non-in-place forms
     def binary(self, spec):
@@ -497,6 +523,7 @@ def judge(ctx, c):
         bt.shifts()
         bt.laws(eq_bits)
         bt.program()
+        bt.scribble()
         # once more at the very end: the receiver used for all non-in-place forms is what it was
         bt.frame('battery', 'all', 'any')
     ctx.state(c['cls'], bt.L, hash(c['a']), c.get('lsb0', False))
